@@ -178,6 +178,11 @@ func registerIntrinsics(e *Engine) {
 		fr.p.eng.noteUse(fmt.Sprintf("tasks: up to %d forced pre-emptions at sync.Mutex.Unlock", fr.p.preempt))
 		return nil
 	})
+	reg("zzClockVirtual", func(fr *Frame, a []Value) Value {
+		fr.p.clockVirtual = true
+		fr.p.eng.noteUse("model: virtual time - the clock moves only in time.Sleep / timers, by exactly the requested duration")
+		return nil
+	})
 	reg("zzClockHorizon", func(fr *Frame, a []Value) Value {
 		fr.p.clockHorizon = a[0].(*smt.T)
 		fr.p.eng.noteUse("assume: the whole run takes less wall-clock time than the stated horizon (no cache entry or deadline expires by the mere passage of time)")
